@@ -8,7 +8,7 @@ BASELINE = json.load(open('/root/.vp/BASELINE.json'))
 TECH = "bounded symbolic execution of the real Go code (go/ssa -> SMT-LIB2, z3/cvc5), counterexamples replayed natively"
 TRUST = ("Trusted: go/ssa as source semantics; the engine's instruction semantics and the listed models/intrinsics "
          "(cross-validated each run by replaying solver witnesses of explored paths against the natively compiled harness); z3 4.8.12 with "
-         "z3 5.1/cvc5 fallbacks (sample of discharged queries re-asked to cvc5 each run). Cooperative goroutine model: no preemption between non-blocking instructions. ")
+         "z3 5.1/cvc5 fallbacks (sample of discharged queries re-asked to cvc5 each run). Cooperative goroutine model: goroutines switch at blocking operations, plus bounded preemption at mutex releases / sync.Map operations where a harness asks for it (C12, C33); no preemption between arbitrary instructions. ")
 
 # property id -> (design section, claim text, level note: bounds + models + outside)
 CLAIMED = {
